@@ -4,7 +4,6 @@ import (
 	"fmt"
 	"math"
 	"math/big"
-	"regexp"
 	"sort"
 	"strconv"
 	"strings"
@@ -180,15 +179,6 @@ func (k *c12run) checkLaws() {
 
 // ---------- strings --------------------------------------------------------------------------------
 
-var c12alnum = regexp.MustCompile("[^a-z0-9 ]")
-
-// c12normEmpty is the matcher of the known finding: the name is non-empty but nothing of it is left
-// after lower-casing and stripping everything outside [a-z0-9 ] (independent re-statement, not a call
-// into the code under test).
-func c12normEmpty(s string) bool {
-	return s != "" && strings.TrimSpace(c12alnum.ReplaceAllString(strings.ToLower(s), "")) == ""
-}
-
 // raw Jaro-Winkler layer on byte strings
 func (k *c12run) jw(a, b string, boost c12rat, prefix int, tie bool) {
 	c := k.c
@@ -240,15 +230,11 @@ func (k *c12run) strsim(a, b string, boost c12rat, prefix int) {
 		c.Oracle("", "StringSimilarity depends on the operand order", in2, c12fl(h1)+" vs swapped "+c12fl(h2), "equal")
 	}
 	for _, x := range []string{a, b} {
-		if x == "" {
-			continue
+		if gedcom.CleanSpace(x) == "" {
+			continue // blank: not a name
 		}
 		if self := gedcom.StringSimilarity(x, x, boost.f(), prefix); self != 1 {
-			key := ""
-			if c12normEmpty(x) {
-				key = "c12-name-normalises-to-empty"
-			}
-			c.Oracle(key, "StringSimilarity of a non-empty name with itself is not 1",
+			c.Oracle("", "StringSimilarity of a non-blank name with itself is not 1",
 				map[string]interface{}{"name": x, "boost": boost.String(), "prefix": prefix}, c12fl(self), "1")
 		}
 	}
@@ -389,7 +375,7 @@ func (k *c12run) strings() {
 	}
 	// pinned: the witness of the known finding and the specials of the normalisation
 	for _, p := range [][2]string{{"王小明", "王小明"}, {"İ", "i"}, {"K", "k"}, {"a     b", "a  b"}, {"a   b", "a b"},
-		{"\xe2\xc4\xb0", "i"}, {"\xf0\x90\xe2\x84\xaa", "k"}, {"ſ", "s"}, {"Straße", "strasse"}, {"  ", "  "}, {"...", "..."}} {
+		{"\xe2\xc4\xb0", "i"}, {"\xf0\x90\xe2\x84\xaa", "k"}, {"ſ", "s"}, {"Straße", "strasse"}, {"  ", "  "}, {"...", "..."}, {"王小明", "王小名"}, {"王小明", "Wang"}, {" 王小明  ", "王小明"}, {"Дмитрий", "дмитрий"}, {"\u00a0王\u3000", "王"}} {
 		k.strsim(p[0], p[1], c12rat{0, 1}, 8)
 	}
 	c.Sample(map[string]string{"request": "jw " + hexs("abba") + " " + hexs("baab") + " 0 4", "meaning": "JaroWinkler(\"abba\",\"baab\",0,4)"})
@@ -1082,7 +1068,7 @@ func (k *c12run) graphs() {
 		d, _ := x.EstimatedDeathDate()
 		named := false
 		for _, nm := range x.Names() {
-			if nm.String() != "" && !c12normEmpty(nm.String()) {
+			if gedcom.CleanSpace(nm.String()) != "" {
 				named = true
 			}
 		}
